@@ -6,7 +6,9 @@ import copy
 import json
 import os
 import re
+import importlib
 import shutil
+import sys
 import tempfile
 
 import parse as _parse
@@ -787,8 +789,15 @@ def invalid_case(case):
                 raise Invalid("env")
             if not case["files"]:
                 raise Invalid("no files")
-            for _fname, _imp, ops, looks in module_ops(case):
+            imports = module_imports(case)
+            if case.get("cwd") not in (None, 0, 1, 2, 3):
+                raise Invalid("cwd")
+            for i, (_fname, _imp, ops, looks) in enumerate(module_ops(case)):
                 model.kind = case["env"] or "parse"
+                if case["files"][i].get("xi") is not None and i not in imports:
+                    raise Invalid("import")
+                if i in imports:
+                    model.kind = import_kinds(case, model.kind)[i]
                 for op in ops:
                     reason = model.invalid(op)
                     if reason:
@@ -901,8 +910,42 @@ def module_ops(case):
     return out
 
 
-def module_source(imp, ops):
+def module_imports(case):
+    """file index -> index of an EARLIER step module that it imports as its first statement
+    (only modules that import nothing themselves, and that import the decorators explicitly instead
+    of relying on the names behave injects into exec'd step files, are imported)."""
+    out = {}
+    for i, f in enumerate(case["files"]):
+        j = f.get("xi")
+        if j is not None and 0 <= j < i and case["files"][j].get("xi") is None and case["files"][j].get("imp"):
+            out[i] = j
+    return out
+
+
+def import_kinds(case, default):
+    """file index -> matcher kind in force after its `import mJJ_steps` line: the imported module's
+    last selection when the import executes it (first import), else unchanged (sys.modules hit)."""
+    out = {}
+    seen = set()
+    for i, j in sorted(module_imports(case).items()):
+        out[i] = default if j in seen else final_kind(case["files"][j], default)
+        seen.add(j)
+    return out
+
+
+def final_kind(f, default):
+    kind = default
+    for item in f["items"]:
+        if "use" in item:
+            kind = item["use"]
+    return kind
+
+
+def module_source(imp, ops, sibling=None):
     lines = [u"# -*- coding: UTF-8 -*-", u"import vf.props.c11 as _c11"]
+    if sibling is not None:
+        # "This may occur when a step module imports another one" (StepRegistry.add_step_definition)
+        lines.append(u"import m%02d_steps" % sibling)
     if imp:
         lines.append(u"from behave import given, when, then, step, use_step_matcher")
     for op in ops:
@@ -928,16 +971,29 @@ def check_modules(res, case):
     registry.clear()
     model = Model()
     model.types = set(CONVERTERS)
+    imports = module_imports(case)
+    old_cwd = os.getcwd()
     try:
-        for name, imp, ops, _looks in files:
-            with open(os.path.join(scratch, name), "w", encoding="utf-8") as f:
-                f.write(module_source(imp, ops))
+        steps_dir = scratch
+        if case.get("cwd"):
+            steps_dir = os.path.join(scratch, "proj", "features", "steps")
+            os.makedirs(steps_dir)
+            os.makedirs(os.path.join(scratch, "elsewhere", "deep"))
+            # behave may be started anywhere: `behave /abs/path/to/features`
+            os.chdir({1: steps_dir, 2: os.path.join(scratch, "proj"),
+                      3: os.path.join(scratch, "elsewhere", "deep")}[case["cwd"]])
+            res.label("modules:cwd-%d" % case["cwd"])
+        for i, (name, imp, ops, _looks) in enumerate(files):
+            with open(os.path.join(steps_dir, name), "w", encoding="utf-8") as f:
+                f.write(module_source(imp, ops, imports.get(i)))
+        if imports:
+            res.label("modules:sibling-import")
         # -- what an environment.py would do before the step modules are loaded
         matchers.register_type(**CONVERTERS)
         if case["env"]:
             matchers.use_step_matcher(case["env"])
         try:
-            load_step_modules([scratch])
+            load_step_modules([steps_dir])
         except step_registry.AmbiguousStep as e:
             res.fail("C11.modules.load-ambiguous", "loading non-overlapping step modules raised AmbiguousStep: %s"
                      % str(e).replace("\n", " "))
@@ -952,9 +1008,15 @@ def check_modules(res, case):
                      "default is %r" % (current, default))
         switched = False
         relied = False
-        for _name, _imp, ops, _looks in files:
+        for i, (_name, _imp, ops, _looks) in enumerate(files):
             model.kind = default
             first = True
+            if i in imports:
+                # the imported module runs again (its definitions are ignored as re-registrations);
+                # the matcher it selected last stays selected for the importing module
+                model.kind = import_kinds(case, default)[i]
+                if model.kind != default:
+                    first = False
             for op in ops:
                 if op["op"] == "reg" and first and switched:
                     relied = True
@@ -989,7 +1051,11 @@ def check_modules(res, case):
         res.evals = max(1, rp.evals)
         res.nontrivial = nregs >= 3 and len(stypes) >= 2
     finally:
+        os.chdir(old_cwd)
         registry.clear()
+        for name in [n for n in sys.modules if re.match(r"m\d\d_steps$", n)]:
+            del sys.modules[name]
+        importlib.invalidate_caches()
         shutil.rmtree(scratch, ignore_errors=True)
 
 
@@ -1146,6 +1212,12 @@ def modules_case_st(draw):
     for _ in range(nfiles):
         items = []
         kind = default
+        xi = None
+        importable = [j for j, g in enumerate(files) if g["imp"] and g.get("xi") is None]
+        if importable and draw(st.integers(0, 2)) == 0:
+            xi = draw(st.sampled_from(importable))
+            if not any(g.get("xi") == xi for g in files):
+                kind = final_kind(files[xi], default)       # the imported module's last selection stays
         for seg in range(draw(st.integers(1, 3))):
             if seg:
                 kind = draw(st.sampled_from(KINDS))
@@ -1153,8 +1225,11 @@ def modules_case_st(draw):
             for _d in range(draw(st.integers(0 if seg == 0 and not draw(st.integers(0, 3)) else 1, 2))):
                 pat = draw(pattern_st(kind, sorted(CONVERTERS), first_literal=next(uniq), max_fields=2))
                 items.append({"st": draw(st.sampled_from(STYPES)), "pat": pat, "insts": draw(insts_st(pat))})
-        files.append({"imp": draw(st.booleans()), "items": items})
-    return {"kind": "modules", "env": env, "files": files}
+        f = {"imp": draw(st.booleans()), "items": items}
+        if xi is not None:
+            f["xi"] = xi
+        files.append(f)
+    return {"kind": "modules", "env": env, "files": files, "cwd": draw(st.sampled_from([0, 0, 1, 2, 3]))}
 
 
 def reregister_cases():
@@ -1302,7 +1377,8 @@ def required_labels(tier):
                "look:bound", "look:unbound", "look:other-step-type", "look:specific-over-generic",
                "look:earlier-over-later", "look:generic-hit",
                "reg:added", "reg:ignored", "reg:ambiguous", "hist:nontrivial",
-               "modules:default-after-switch", "modules:env-default"])
+               "modules:default-after-switch", "modules:env-default", "modules:sibling-import",
+               "modules:cwd-1", "modules:cwd-2", "modules:cwd-3"])
 
 
 KNOWN_PREDICATES = {}
